@@ -161,7 +161,7 @@ PROPS = {
     ),
     "C18": P(
         technique="Lean 4 theorems over the dial-path decision function (whole configuration matrix) + exhaustive matrix correspondence with in-process proxies and TLS backends",
-        level_text="Proof over Client.dialPlan for every configuration {no proxy, http, https, socks5} x {ws, wss} x 2^3 dial functions x credentials x certificate case: for wss the library does TLS to the backend with the URL host as ServerName (over the tunnel when a proxy is used) on every path except a bare custom NetDialTLSContext, and a dial succeeds only with a certificate valid for the host unless the user disabled verification; ws gets no TLS; an HTTP(S) proxy gets a CONNECT, with Basic auth exactly when the proxy URL carries a password; the first hop goes to the proxy with the applicable custom function; hostPortNoPort default ports incl. IPv6 literals. Tie (exhaustive over the runnable cells, 713): real Dials over in-memory connections to in-process http/https/socks5 proxies and TLS/plain backends with a private CA (valid / other-host / untrusted certificates); observed first-hop function and address, CONNECT line and Proxy-Authorization, SOCKS5 request and credentials, SNI at the backend, whether the upgrade request reached the backend and the dial outcome must equal the model's; oracle: no upgrade request outside verified TLS, exactly one CONNECT for host:port.",
+        level_text="Proof over Client.dialPlan for every configuration {no proxy, http, https, socks5} x {ws, wss} x 2^3 dial functions x credentials x certificate case: for wss the library does TLS to the backend with the URL host as ServerName (over the tunnel when a proxy is used) on every path except a bare custom NetDialTLSContext, and a dial succeeds only with a certificate valid for the host unless the user disabled verification; ws gets no TLS; an HTTP(S) proxy gets a CONNECT, with Basic auth exactly when the proxy URL carries a password; the first hop goes to the proxy with the applicable custom function; hostPortNoPort default ports incl. IPv6 literals. Tie (thorough tier: exhaustive over the 1536 indexes of the cell space, 662 distinct runnable cells incl. InsecureSkipVerify on/off; quick tier: a stride walk sampling every dimension): real Dials over in-memory connections to in-process http/https/socks5 proxies and TLS/plain backends with a private CA (valid / other-host / untrusted certificates); observed first-hop function and address, CONNECT line and Proxy-Authorization, SOCKS5 request and credentials, SNI at the backend, whether the upgrade request reached the backend and the dial outcome must equal the model's; oracle: no upgrade request outside verified TLS, exactly one CONNECT for host:port.",
         level_note="Partial: crypto/tls and x/net/proxy are exercised, not modelled; cells that need the real network (no custom dial function applicable) are not runnable offline and are skipped; proxy selection via environment variables is net/http's.",
         lean=["WS.Props.C18"],
         streams=[("matrix", 220, 1700), ("unit", 200, 2000), ("hsfault", 9, 9)],
